@@ -29,6 +29,8 @@ type recvRec struct {
 type subObs struct {
 	scallIdx, sretIdx, cancelIdx, closedIdx int
 	recvs                                   []recvRec
+	drainedIdx                              int         // last `drained` event of its (manual) reader, -1: none
+	xsends                                  map[int]int // value -> event index of the fan-out's send attempt for this subscriber
 }
 
 // monitor checks the clauses of C10 on one execution.
@@ -89,7 +91,7 @@ func monitor(c Case, o Outcome, cap int) []Problem {
 				}
 			}
 		case "scall", "scalld":
-			subs = append(subs, &subObs{scallIdx: i, sretIdx: -1, cancelIdx: -1, closedIdx: -1})
+			subs = append(subs, &subObs{scallIdx: i, sretIdx: -1, cancelIdx: -1, closedIdx: -1, drainedIdx: -1, xsends: map[int]int{}})
 			if e.K == "scalld" { // the context had ended (or was ending) when Subscribe was called
 				subs[len(subs)-1].cancelIdx = i
 			}
@@ -122,6 +124,16 @@ func monitor(c Case, o Outcome, cap int) []Problem {
 				cret = i // the first Close return
 			}
 			crets++
+		case "drained":
+			if e.Sub < len(subs) {
+				subs[e.Sub].drainedIdx = i
+			}
+		case "xsend":
+			if e.Sub < len(subs) {
+				if _, ok := subs[e.Sub].xsends[e.V]; !ok {
+					subs[e.Sub].xsends[e.V] = i
+				}
+			}
 		case "open":
 			add("close-returned-before-channels-closed", "a Close call returned (%d called, %d returned so far) while the channel of subscriber %d, accepted before the first Close call, was still open", ccalls, crets, e.Sub)
 		case "park":
@@ -252,6 +264,66 @@ func monitor(c Case, o Outcome, cap int) []Problem {
 					}
 				}
 			}
+		}
+	}
+	// slow subscribers: a reader that did not read for a while (any number of values outstanding, the
+	// fan-out possibly blocked on its full buffer) and then resumed and caught up (`drained`: nothing more
+	// was coming, the queue's loop idle, nothing held by the harness) while its subscriber stayed
+	// subscribed and the batcher was open must by then have received
+	//   (a) every value any other subscriber has received by then        (all subscribers see the same sequence)
+	//   (b) every value the fan-out tried to hand to it                   (delivered ... to every subscriber that stays)
+	//   (c) the last value of every key that had become due by then       (delivered one interval after the call)
+	// each for Batch calls made after its Subscribe had returned.
+	for si, s := range subs {
+		d := s.drainedIdx
+		if d < 0 || s.sretIdx < 0 || s.sretIdx > d || (s.cancelIdx >= 0 && s.cancelIdx < d) || (ccall >= 0 && ccall < d) || s.closedIdx >= 0 && s.closedIdx < d {
+			continue
+		}
+		got := map[int]bool{}
+		for _, r := range s.recvs {
+			if r.idx < d {
+				got[r.val] = true
+			}
+		}
+		missing := map[int]string{}
+		for ti, t := range subs {
+			if ti == si {
+				continue
+			}
+			for _, r := range t.recvs {
+				if b, ok := batches[r.val]; ok && r.idx < d && b.idx > s.sretIdx && !got[r.val] {
+					missing[r.val] = fmt.Sprintf("subscriber %d received it", ti)
+				}
+			}
+		}
+		for v, xi := range s.xsends {
+			if b, ok := batches[v]; ok && xi < d && b.idx > s.sretIdx && !got[v] {
+				if _, dup := missing[v]; !dup {
+					missing[v] = "the fan-out reached this subscriber with it"
+				}
+			}
+		}
+		if parks == 0 {
+			for _, b := range order {
+				if b.idx > s.sretIdx && b.dueIdx >= 0 && b.dueIdx < d && !hasLater(b) && !got[b.val] {
+					if _, dup := missing[b.val]; !dup {
+						missing[b.val] = fmt.Sprintf("last Batch of key %d, due at %d", b.key, b.due)
+					}
+				}
+			}
+		}
+		if len(missing) > 0 {
+			var vs []int
+			for v := range missing {
+				vs = append(vs, v)
+			}
+			sort.Ints(vs)
+			show := vs
+			if len(show) > 8 {
+				show = show[:8]
+			}
+			add("staying-slow-subscriber-missed-value", "subscriber %d did not read for a while, stayed subscribed (context live, batcher open), then read until nothing more came (%d values received, clock %d): it never received %d value(s) %v (first: value %d of key %d, called at %d - %s)",
+				si, len(got), o.Evs[d].Now, len(vs), show, vs[0], batches[vs[0]].key, batches[vs[0]].callNow, missing[vs[0]])
 		}
 	}
 	// channel closure
